@@ -53,6 +53,7 @@ func newWorldFor(cfg RunCfg) (*World, map[string]int) {
 		rc = NewRefCounter()
 		cb = rc.callbacks(cb)
 	}
+	memOnlyTypedNil = cfg.CmpCB
 	w, err := NewWorld(cfg.FileBacked, cb)
 	if err != nil {
 		panic(err)
